@@ -204,7 +204,8 @@ def jobs(tier):
     if q:
         chains = [CHAIN[0:4], CHAIN[4:8], CHAIN[8:12], CHAIN[12:15], ['select-row', 'cat', 'head'], ['cat', 'selectge', 'rowslice']]
     else:
-        chains = [[a, b] for a in CHAIN for b in CHAIN if a != b]
+        # header-changing operators can only come last (the operators after them address fields by their original names)
+        chains = [[a, b] for a in CHAIN for b in CHAIN if a != b and a not in ('suffixheader', 'cut-index')]
     for c in chains:
         out.append(dict(name='chain/' + '+'.join(c), func='chain', params=dict(N=N, names=c), budget=150 if q else 600))
     return out
